@@ -685,8 +685,5 @@ func (d *dirEntry) Info() (fs.FileInfo, error) {
 }
 
 func standardizePath(p string) string {
-	if p[0] == '/' {
-		p = p[1:]
-	}
-	return p
+	return strings.TrimPrefix(p, "/")
 }
